@@ -125,8 +125,11 @@ def run(chk):
                 "std.mergePatch(1e300, {a: null})", "std.prune(std.range(1, 10))", "std.objectRemoveKey({}, 'a').a",
                 "std.mod('%d', [1, 2])", "std.mod(1, 0)", "std.log(-1)", "std.pow(-1, 0.5)", "std.exponent(0)", "std.mantissa(1e300)",
                 "std.round(1e300)", "std.round(-0.5)", "std.sign('a')", "std.isEven(1e300)", "std.isOdd(0.5)", "std.isInteger(1e300)",
-                "std.hypot(1e300, 1e300)", "std.clamp(1, 5, 2)", "std.manifestIni(1)", "std.deg2rad(1e308) * 1e10"]:
+                "std.hypot(1e300, 1e300)", "std.clamp(1, 5, 2)", "(function(a, b) 1)(a=1, b=2, c=3)", "(function(a) 1)(1, a=2, b=3)",
+                "std.length(x=1, y=2)", "std.length(1, x=2, y=3)", "(function() 1)(a=1)", "std.makeArray(1, function() 1, sz=2, func=3)", "std.manifestIni(1)", "std.deg2rad(1e308) * 1e10"]:
         scmds.append({"cmd": "eval", "id": len(scmds), "src": f"local r = {src}; [std.type(r)]"})
+    scmds.append({"cmd": "eval", "id": len(scmds), "src": "local r = function(a, b) 1; r",
+                  "tla": {"x1": {"str": "1"}, "y2": {"str": "2"}, "z3": {"str": "3"}}})
     chk.extra["std_functions"] = len(arity)
     chk.extra["std_calls"] = len(scmds)
     for cmd, r in zip(scmds, run_cmds(scmds, timeout_per_case=4, chunk=60)):
